@@ -26,7 +26,7 @@ fn body(threshold: u32, per_thread: Vec<Vec<Outcome>>, server: bool) -> Body {
         isolation::load_rules(vec![Arc::new(isolation::Rule { id: "iso".into(), resource: RES.into(), threshold, ..Default::default() })]);
         let calls = Arc::new(AtomicUsize::new(0));
         let role = if server { ServiceRole::Server } else { ServiceRole::Client };
-        let svc: SentinelService<Inner, Req> = SentinelService::new(Inner { calls: calls.clone() }, role).with_extractor(extract).with_fallback(fb_ok);
+        let svc: SentinelService<Inner, Req> = SentinelService::new(Inner::new(calls.clone()), role).with_extractor(extract).with_fallback(fb_ok);
         let mut hs = vec![];
         for (t, outs) in per_thread.iter().cloned().enumerate() {
             let mut s = svc.clone();
@@ -37,6 +37,9 @@ fn body(threshold: u32, per_thread: Vec<Vec<Outcome>>, server: bool) -> Body {
                 let mut rejected = 0u32;
                 for (i, o) in outs.iter().enumerate() {
                     let id = (t * 10 + i) as u32 + 1;
+                    if !matches!(s.poll_ready(&mut cx), Poll::Ready(Ok(()))) {
+                        panic!("ORACLE: not-ready: poll_ready of the middleware is not ready over an always-ready inner service");
+                    }
                     let mut fut = s.call((id, *o));
                     let mut polls = 0;
                     let r = loop {
